@@ -32,6 +32,10 @@ type Op struct {
 	Pick   []int  `json:"pick,omitempty"`
 	At     int    `json:"at,omitempty"`
 	Pred   string `json:"pred,omitempty"`
+	// Quiet: the checks after this step look at the store through clones only, so that they leave no persisted
+	// snapshot files behind; the real store then holds snapshot files for some commits and not for others, as it
+	// does when nobody queried the lake between two commits.
+	Quiet bool `json:"quiet,omitempty"`
 }
 
 type Case struct {
@@ -88,6 +92,7 @@ func genCase(t *rapid.T) Case {
 		default:
 			op = Op{Kind: "vacuum", Branch: br}
 		}
+		op.Quiet = rapid.IntRange(0, 2).Draw(t, "quiet") == 0
 		c.Ops = append(c.Ops, op)
 	}
 	return c
@@ -141,8 +146,12 @@ func (r *runnerA) query(lk *lakeh.Lake, commit ksuid.KSUID) ([]zed.Value, string
 }
 
 // noteTip records the tip of branch if it is a commit not seen before.
-func (r *runnerA) noteTip(step int, branch string) *vt.Failure {
-	fresh, err := lakeh.Open(r.ctx, r.store, r.mode, nil)
+func (r *runnerA) noteTip(step int, branch string, quiet bool) *vt.Failure {
+	st := r.store
+	if quiet {
+		st = r.store.Clone()
+	}
+	fresh, err := lakeh.Open(r.ctx, st, r.mode, nil)
 	if err != nil {
 		return fail("C13/reopen-failed", "step %d: %v", step, err)
 	}
@@ -345,37 +354,67 @@ func (r *runnerA) step1(i int, op Op) (mutated string, f *vt.Failure) {
 	return "", nil
 }
 
-// recheck re-queries every commit created so far through three kinds of handle.
+// recheck re-queries every commit created so far through several kinds of handle: the two long-lived ones, a
+// fresh one walking the commits oldest first, and a fresh one on a clone of the store walking them newest first
+// (so that it derives a newer commit's snapshot from an older persisted one before it is asked for the older one).
+// In a quiet step only clones are used.
 func (r *runnerA) recheck(i int, op Op) *vt.Failure {
-	cold, err := lakeh.Open(r.ctx, r.store, r.mode, nil)
+	st := r.store
+	if op.Quiet {
+		st = r.store.Clone()
+	}
+	cold, err := lakeh.Open(r.ctx, st, r.mode, nil)
 	if err != nil {
 		return fail("C13/reopen-failed", "step %d: %v", i, err)
 	}
-	handles := []struct {
+	cold2, err := lakeh.Open(r.ctx, r.store.Clone(), r.mode, nil)
+	if err != nil {
+		return fail("C13/reopen-failed", "step %d: %v", i, err)
+	}
+	type handle struct {
 		name string
 		lk   *lakeh.Lake
-	}{{"writer(warm)", r.writer}, {"second-handle(warm)", r.reader}, {"fresh(cold)", cold}}
+	}
+	handles := []handle{{"writer(warm)", r.writer}, {"second-handle(warm)", r.reader}, {"fresh(cold)", cold}}
+	if op.Quiet {
+		handles = handles[2:]
+	}
+	check := func(h handle, rec *commitRec) *vt.Failure {
+		full, cnt, err := r.query(h.lk, rec.id)
+		if err != nil {
+			return fail("C13/commit-unreadable/after-"+op.Kind, "step %d (%s): commit created at step %d cannot be queried any more through %s: %v", i, op.Kind, rec.step, h.name, err)
+		}
+		if d := oracle.SameMultiset(rec.full, full); d != "" {
+			return fail("C13/commit-content-changed/after-"+op.Kind, "step %d (%s): contents of the commit created at step %d changed as seen by %s: %s", i, op.Kind, rec.step, h.name, d)
+		}
+		if cnt != rec.count {
+			return fail("C13/commit-query-changed/after-"+op.Kind, "step %d (%s): filtered query on the commit created at step %d changed as seen by %s: %s -> %s", i, op.Kind, rec.step, h.name, rec.count, cnt)
+		}
+		r.requeried++
+		return nil
+	}
 	for _, id := range r.order {
 		rec := r.commits[id]
 		if rec.exempt || rec.step == i {
 			continue
 		}
 		for _, h := range handles {
-			full, cnt, err := r.query(h.lk, id)
-			if err != nil {
-				return fail("C13/commit-unreadable/after-"+op.Kind, "step %d (%s): commit created at step %d cannot be queried any more through %s: %v", i, op.Kind, rec.step, h.name, err)
+			if f := check(h, rec); f != nil {
+				return f
 			}
-			if d := oracle.SameMultiset(rec.full, full); d != "" {
-				return fail("C13/commit-content-changed/after-"+op.Kind, "step %d (%s): contents of the commit created at step %d changed as seen by %s: %s", i, op.Kind, rec.step, h.name, d)
-			}
-			if cnt != rec.count {
-				return fail("C13/commit-query-changed/after-"+op.Kind, "step %d (%s): filtered query on the commit created at step %d changed as seen by %s: %s -> %s", i, op.Kind, rec.step, h.name, rec.count, cnt)
-			}
-			r.requeried++
 		}
 		switch op.Kind {
 		case "compact", "revert", "merge", "delete", "deletewhere":
 			rec.later++
+		}
+	}
+	for k := len(r.order) - 1; k >= 0; k-- {
+		rec := r.commits[r.order[k]]
+		if rec.exempt {
+			continue
+		}
+		if f := check(handle{"fresh(cold, newest commit first)", cold2}, rec); f != nil {
+			return f
 		}
 	}
 	return nil
@@ -383,19 +422,28 @@ func (r *runnerA) recheck(i int, op Op) *vt.Failure {
 
 // visible checks that a query of the branch started after the operation was acknowledged sees it, from the
 // second long-lived handle and from a fresh one.
-func (r *runnerA) visible(i int, branch string) *vt.Failure {
+func (r *runnerA) visible(i int, branch string, quiet bool) *vt.Failure {
 	tipRec := r.commits[r.chains[branch][0]]
 	if tipRec.exempt {
 		return nil
 	}
-	cold, err := lakeh.Open(r.ctx, r.store, r.mode, nil)
+	st := r.store
+	if quiet {
+		st = r.store.Clone()
+	}
+	cold, err := lakeh.Open(r.ctx, st, r.mode, nil)
 	if err != nil {
 		return fail("C13/reopen-failed", "step %d: %v", i, err)
 	}
-	for _, h := range []struct {
+	type handle struct {
 		name string
 		lk   *lakeh.Lake
-	}{{"fresh(cold)", cold}, {"second-handle(warm)", r.reader}} {
+	}
+	handles := []handle{{"fresh(cold)", cold}, {"second-handle(warm)", r.reader}}
+	if quiet {
+		handles = handles[:1]
+	}
+	for _, h := range handles {
 		got, err := h.lk.Query(r.ctx, nil, fmt.Sprintf("from %s@%s", r.poolName, branch))
 		if err != nil {
 			return fail("C13/branch-unreadable", "step %d: query of %s through %s failed: %v", i, branch, h.name, err)
@@ -447,13 +495,13 @@ func runCase(c Case) *vt.Outcome {
 		names: []string{"main"}, chains: map[string][]ksuid.KSUID{}, commits: map[ksuid.KSUID]*commitRec{}, o: o, gone: map[ksuid.KSUID]bool{}}
 	for i, op := range c.Ops {
 		// warm the second handle's caches right before the writer acts
-		if len(r.chains["main"]) > 0 {
+		if len(r.chains["main"]) > 0 && !op.Quiet {
 			rd.Query(ctx, nil, fmt.Sprintf("from %s@main | count()", r.poolName))
 		}
 		br, f := r.step(i, op)
 		if f == nil && br != "" {
-			if f = r.noteTip(i, br); f == nil {
-				f = r.visible(i, br)
+			if f = r.noteTip(i, br, op.Quiet); f == nil {
+				f = r.visible(i, br, op.Quiet)
 			}
 		}
 		if f == nil {
@@ -476,7 +524,7 @@ func runCase(c Case) *vt.Outcome {
 
 var propA = &vt.Prop[Case]{
 	Name: "TestCommitImmutable",
-	Rule: "case = storage mode x history of 3..10 (thorough 24) ops over up to 3 branches: load, delete, delete-where, compact, create branch, merge, revert, rename pool, vacuum. Every commit that ever was a branch tip is recorded with the result of a full scan and of a filtered aggregate at `pool@<commit id>`; after EVERY later step each recorded commit is re-queried through the long-lived writing handle, a second long-lived handle with warm caches, and a fresh handle, and must give the same results (commits whose objects were vacuumed are exempt, exactly those). " +
+	Rule: "case = storage mode x history of 3..10 (thorough 24) ops over up to 3 branches: load, delete, delete-where, compact, create branch, merge, revert, rename pool, vacuum. Every commit that ever was a branch tip is recorded with the result of a full scan and of a filtered aggregate at `pool@<commit id>`; after EVERY later step each recorded commit is re-queried through the long-lived writing handle, a second long-lived handle with warm caches, a fresh handle (oldest commit first) and a fresh handle on a clone of the store (newest commit first), and must give the same results; a third of the steps are quiet: their checks run on clones only and leave no persisted snapshot files, so later handles derive snapshots from older persisted ones (commits whose objects were vacuumed are exempt, exactly those). " +
 		"After every acknowledged mutation a query of the branch through the second long-lived handle and through a fresh handle must show it. evaluations = re-queries; a history is non-trivial when some commit was re-queried after a later delete/compaction/revert/merge; distinct by case digest.",
 	Gen: genCase,
 	Run: runCase,
